@@ -11,6 +11,7 @@ import (
 	"io"
 	"net"
 	"sync"
+	"sync/atomic"
 	"time"
 )
 
@@ -106,6 +107,8 @@ type End struct {
 	once   sync.Once
 	closed chan struct{}
 
+	writeHook atomic.Pointer[func(p []byte)]
+
 	fmu     sync.Mutex
 	frames  chan []byte
 	started bool
@@ -125,8 +128,23 @@ func Pair(name string) (a, b *End) {
 	return
 }
 
-func (e *End) Read(p []byte) (int, error)  { return e.rd.read(p) }
-func (e *End) Write(p []byte) (int, error) { return e.wr.write(p) }
+func (e *End) Read(p []byte) (int, error) { return e.rd.read(p) }
+func (e *End) Write(p []byte) (int, error) {
+	if h := e.writeHook.Load(); h != nil {
+		(*h)(p) // may block: models a write that is still in progress (slow reader)
+	}
+	return e.wr.write(p)
+}
+
+// SetWriteHook installs a function that is called at the start of every Write
+// on this end, before the bytes are taken; nil removes it.
+func (e *End) SetWriteHook(f func(p []byte)) {
+	if f == nil {
+		e.writeHook.Store(nil)
+		return
+	}
+	e.writeHook.Store(&f)
+}
 
 // Close ends both directions: the peer reads EOF after draining what was
 // written, the peer's writes fail, local reads fail.
